@@ -11,6 +11,10 @@ def teb_bmc(cap, nops, tier):
              bounds='initial capacity %d, every sequence of %d operations (push with expansion / pop / request+try shrink) from the initial state' % (cap, nops),
              what='K2 bounded runs: FIFO across repeated expansion and shrink cycles')
 QUERIES = [teb_ind(1, 'quick'), teb_ind(2, 'quick'), teb_bmc(1, 4, 'thorough'), teb_ind(4, 'thorough')]
+# K5: the real _poll()/_exit() loops over the kernel contracts (harness/C07_exit.cpp, queries defined in C07.py)
+import importlib.util as _iu, os as _os
+_s7 = _iu.spec_from_file_location('c07', _os.path.join(_os.path.dirname(__file__), 'C07.py')); _m7 = _iu.module_from_spec(_s7); _m7.Q = Q; _s7.loader.exec_module(_m7)
+QUERIES += [q for q in _m7.QUERIES if 'skeleton' in q.name]
 BOUNDS = 'K2: capacities 1..8'
 OUTSIDE = 'end-to-end composition of the kernels is argued in DESIGN.md, not solved'
 ASSUMPTIONS = ['TransitEvent payload replaced by a shallow 56-byte model (rt/m_transit.c)']
@@ -43,7 +47,7 @@ QUERIES += [k3(2, 0, 'quick'), k3(1, 1, 'quick'), k3(1, 2, 'quick', wide=0), k3(
 # NOTE: harness/C03_backend.cpp + harness/bk.h (kernels K1/K3 on the real BackendWorker) are kept in the tree but NOT registered:
 # at 1-2 contexts x 1-2 records CBMC needed > 60 GB / did not finish in 10 min (see DESIGN.md section 7).
 MANIFEST = {
- 'text': 'Reduced scope. Decided by the solver on the real code: K2, the per-thread backend ring (TransitEventBuffer) keeps exact FIFO content across position wrap-around, expansion and shrink (inductive step from an arbitrary ring state); K3, the real _process_lowest_timestamp_transit_event dispatches per call exactly one event, the minimum timestamp over all thread buffers, pops exactly that one and reports false iff nothing is buffered, so every buffered event is dispatched once and in global timestamp order; The per-sink fan-out is decided by C16 per_sink_loop and C12 multiline_*, the queues by C01/C02, the level gate by C16, the codec by C04. K1, the real _read_and_decode_frontend_queue on records written by the real log_statement decodes them in order into the ring with their timestamp/metadata/logger/flush flag, marks exactly the decoded records as read, stops at the hard limit and leaves a held-back record and everything behind it unconsumed. The poll skeleton (K5), the clean-up condition (K4) and the composition of the kernels are NOT solved (argument in DESIGN.md).',
+ 'text': 'Reduced scope. Decided by the solver on the real code: K2, the per-thread backend ring (TransitEventBuffer) keeps exact FIFO content across position wrap-around, expansion and shrink (inductive step from an arbitrary ring state); K3, the real _process_lowest_timestamp_transit_event dispatches per call exactly one event, the minimum timestamp over all thread buffers, pops exactly that one and reports false iff nothing is buffered, so every buffered event is dispatched once and in global timestamp order; The per-sink fan-out is decided by C16 per_sink_loop and C12 multiline_*, the queues by C01/C02, the level gate by C16, the codec by C04. K1, the real _read_and_decode_frontend_queue on records written by the real log_statement decodes them in order into the ring with their timestamp/metadata/logger/flush flag, marks exactly the decoded records as read, stops at the hard limit and leaves a held-back record and everything behind it unconsumed. K5, the real _poll() and _exit() loops with the kernels replaced by these contracts (IR hooks) never write out of timestamp order, never lose a record while producers keep logging, and at exit write everything. The composition is thereby decided at the level of the contracts; K4, the emptiness predicate guarding clean-up, is true only when nothing is queued or buffered anywhere. NOT solved: one run with all real kernels in place at once (too large), args decoding/rendering inside K1, the unbounded-queue read path.',
  'note': 'K2: capacities 1,2 (quick) / 4 (thorough). K1: one context, <= 3 header-only records (Log/Flush), args decoding and rendering not involved; K3: 2 contexts x <= 2 events, light worker (only the members the kernel touches are constructed), dispatch observed by an IR hook. TransitEvent payload replaced by a shallow model. Trusted: clang IR, translator, CBMC.',
  'technique': 'CBMC/SAT over clang IR of the real TransitEventBuffer and BackendWorker dispatch kernel from symbolic states; IR-level observation hooks; native replay',
 }
